@@ -88,6 +88,7 @@ class LocalInference:
         theta = theta0
         mu = model.belief_propagation(theta)
         l0, _ = self._marginal_loss(mu)
+        l = l0
         
         prev_l = np.inf
         for t in range(iters):
